@@ -40,6 +40,11 @@ def run(ctx: Ctx, env):
                   f"IdentifierStripper.{name}", f"{name} is overridden: the generic rebuild of C16 no longer applies",
                   ci.module.loc(r[1]) if r else "")
 
+    # paths inside every other construct (lists, call arguments, operators) are reached only through the generic
+    # transformer the stripper inherits: it must visit every contained node and rebuild from the visited children (as C16/R3)
+    from .c16 import check_generic_traversal
+    check_generic_traversal(ctx, env, TRANSFORMER, True, "R0.generic-transformer-complete")
+
     interp = env.interp()
     strip_arg = Sym("strip_argument")
     r = repo.lookup_method(STRIPPER, "visit_Attribute")
